@@ -1524,8 +1524,28 @@ func apiOps() []*apiOp {
 	return out
 }
 
-// quick tier: the first two starts; thorough: all
-var apiStarts = []string{"root-only", "two-files-r1", "two-files", "two-files-v01"}
+// quick tier: the first three starts; thorough: all
+var apiStarts = []string{"root-only", "two-files-r1", "many-rules", "two-files", "two-files-v01"}
+
+// apiExistingNameOps: from the "many-rules" start (both rule files hold
+// several rules, file rules first and in the middle) every existing rule name
+// is offered again to both rule files: each must be refused, wherever the name
+// sits in its file and whatever kinds of rule precede it.
+func apiExistingNameOps() []*apiOp {
+	t0 := keys.Get("C13-T0")
+	sg := apiSigner{keys.Signer{K: t0}}
+	ctx := context.Background()
+	out := []*apiOp{}
+	for _, name := range []string{"deleg", "f0", "r1", "r2", "d1", "d2", "d3"} {
+		for _, f := range []string{"targets", "deleg"} {
+			name, f := name, f
+			out = append(out, &apiOp{Name: fmt.Sprintf("AddDelegation(%s,%s)", f, name), Mut: "AddDelegation", Tag: "existing-name", run: func(r *gittuf.Repository) error {
+				return r.AddDelegation(ctx, sg, f, name, []string{t0.KeyID}, []string{"git:refs/heads/x"}, 1, false)
+			}})
+		}
+	}
+	return out
+}
 
 // apiStart publishes the start policy into a fresh real repository.
 func apiStart(t *testing.T, start string) (string, error) {
@@ -1542,6 +1562,18 @@ func apiStart(t *testing.T, start string) (string, error) {
 	case "two-files-r1":
 		tg := world.Targets(1, []tuf.Principal{t0.TUFKey()}, []world.RuleSpec{{Name: "deleg", Patterns: []string{"git:refs/heads/*"}, Principals: []string{t0.KeyID}, Threshold: 1}})
 		dg := world.Targets(1, []tuf.Principal{t0.TUFKey()}, []world.RuleSpec{{Name: "r1", Patterns: []string{"file:a"}, Principals: []string{t0.KeyID}, Threshold: 1}})
+		tenv, denv = world.Envelope(tg, t0), world.Envelope(dg, t0)
+	case "many-rules":
+		ids := []string{t0.KeyID}
+		tg := world.Targets(1, []tuf.Principal{t0.TUFKey()}, []world.RuleSpec{
+			{Name: "deleg", Patterns: []string{"git:refs/heads/*"}, Principals: ids, Threshold: 1},
+			{Name: "f0", Patterns: []string{"file:top"}, Principals: ids, Threshold: 1},
+			{Name: "r1", Patterns: []string{"git:refs/heads/main"}, Principals: ids, Threshold: 1},
+			{Name: "r2", Patterns: []string{"git:refs/tags/*"}, Principals: ids, Threshold: 1}})
+		dg := world.Targets(1, []tuf.Principal{t0.TUFKey()}, []world.RuleSpec{
+			{Name: "d1", Patterns: []string{"file:a"}, Principals: ids, Threshold: 1},
+			{Name: "d2", Patterns: []string{"git:refs/heads/dev"}, Principals: ids, Threshold: 1},
+			{Name: "d3", Patterns: []string{"file:c"}, Principals: ids, Threshold: 1}})
 		tenv, denv = world.Envelope(tg, t0), world.Envelope(dg, t0)
 	case "two-files-v01":
 		tg := tufv01.NewTargetsMetadata()
@@ -1751,10 +1783,15 @@ func searchAPI(t *testing.T, col *evid.Collector, thorough bool, item *int) bool
 	}
 	starts := apiStarts
 	if !thorough {
-		starts = apiStarts[:2]
+		starts = apiStarts[:3]
 	}
 	col.Bound("starts.api", len(starts))
+	baseOps := ops
 	for _, start := range starts {
+		ops = baseOps
+		if start == "many-rules" {
+			ops = append(append([]*apiOp{}, baseOps...), apiExistingNameOps()...)
+		}
 		// only build the start repository when this shard owns one of its
 		// first operations (or counts the start state)
 		owns := shard == 0
@@ -1862,7 +1899,7 @@ func replayAPI(t *testing.T, col *evid.Collector, r replay) {
 		col.Fail(err.Error())
 		return
 	}
-	ops := apiOps()
+	ops := append(apiOps(), apiExistingNameOps()...)
 	path := []string{}
 	for _, name := range r.Ops {
 		var p *apiOp
